@@ -45,7 +45,7 @@ def describe():
         "functions": ["adapters.py:AdapterIndex.__init__/_accept/_make_index (concrete)", "adapters.py:AdapterIndex._match_to_one_length/_match_to_multiple_lengths/_lookup_with_n",
                       "adapters.py:AdapterIndex._make_prefix/_make_suffix/_make_prefix_match/_make_suffix_match", "adapters.py:PrefixAdapter/SuffixAdapter.match_to (N fallback)",
                       "_align.pyx:PrefixComparer/SuffixComparer/Aligner.locate (N fallback)", "_align.pyx:edit_environment/hamming_sphere (native, concrete arguments)"],
-        "bounds": {"quick": {"adapter sets": [s for _, s in SETS_QUICK], "orders": "every permutation", "errors k": "0, 1", "indels": "on/off", "ends": "5' and 3'",
+        "bounds": {"quick": {"adapter sets": [s for _, s in SETS_QUICK], "orders": "given, reversed and one rotated order (thorough: every permutation)", "errors k": "0, 1", "indels": "on/off", "ends": "5' and 3'",
                              "read": "every length 0..longest indexed string + 1, characters symbolic over " + READ_ALPHABET},
                    "thorough": {"adapter sets": [s for _, s in SETS_THOROUGH], "errors k": "0, 1, 2", "read": "0..longest + 2"}},
         "outside_bounds": ["adapter sets are enumerated, not symbolic (a dictionary over symbolic keys is out of reach)", "longer adapters, k = 3", "read characters outside " + READ_ALPHABET],
@@ -61,6 +61,8 @@ def jobs(tier, seed):
     out = []
     for sname, seqs in sets:
         perms = list(itertools.permutations(range(len(seqs))))
+        if tier == "quick" and len(perms) > 2:
+            perms = [perms[0], perms[-1], perms[len(perms) // 2]]     # quick: given, reversed and one rotated order
         for perm in perms:
             order = [seqs[i] for i in perm]
             for prefix in (True, False):
